@@ -285,8 +285,9 @@ def finish(prop, tier, seed, results, t_start, explanation, trusted_base, checke
         "wall_s": round(time.time() - t_start, 2),
         "violations": len(violations),
     }
-    os.makedirs(os.path.join(VERIF, "evidence"), exist_ok=True)
-    with open(os.path.join(VERIF, "evidence", prop + ".json"), "w") as f:
+    evdir = os.environ.get("VERIF_EVIDENCE_DIR") or os.path.join(VERIF, "evidence")
+    os.makedirs(evdir, exist_ok=True)
+    with open(os.path.join(evdir, prop + ".json"), "w") as f:
         json.dump(ev, f, indent=1, sort_keys=True)
         f.write("\n")
     print("%s tier=%s: %d obligations, %d hold, %d violated (%d known), %d inconclusive, %.1fs" % (
